@@ -5,7 +5,7 @@ QUERIES = [
           desc="ecdsa_s2c_verify_commit == (R0 + H_tag(ser33(R0)||data) G finite and x mod n == sig r); tweak >= n fails; tagged-hash layout vs reference"),
     Query("host_verify_implies_commit", S, "harness_host_verify", defs=["VERIFY_COMMIT"], unwind=210, timeout=900,
           desc="anti_exfil_host_verify accepts only if the commitment check accepts on the same arguments"),
-    Query("signer_commit_eq_sign_nonce", S, "harness_nonce_eq", defs=["NONCE_EQ"], unwind=210, unwindset=["secp256k1_ecdsa_sign_inner.0:3", "nonce_function_rfc6979_impl.0:4", "secp256k1_ecdsa_anti_exfil_signer_commit.0:3"], timeout=1200, mem_gb=10,
+    Query("signer_commit_eq_sign_nonce", S, "harness_nonce_eq", defs=["NONCE_EQ"], unwind=210, unwindset=["secp256k1_ecdsa_sign_inner.0:3", "nonce_function_rfc6979_impl.0:4", "secp256k1_ecdsa_anti_exfil_signer_commit.0:3", "secp256k1_sha256_transform.0:4"], timeout=1500, mem_gb=12,
           desc="anti-exfil: opening from signer_commit(host_commit(rho)) == opening of s2c_sign(rho): the static-context and caller-context RFC 6979 derivations get identical key material, for all keys, messages (incl. >= n) and rho",
           bounds="first RFC 6979 draw assumed to be a valid nonce (retry loops cut); RFC 6979 generator and k -> kG uninterpreted"),
 ]
